@@ -34,7 +34,8 @@ def run(chk):
     chk.rule("Q1", "effect on internal_count per (last_state, state) pair equals the quadrature relation (+1 cw, -1 ccw, 0 otherwise)")
     chk.rule("Q2", "last_state := state on every path; count := floor(internal_count_after / 4) stored exactly when state == 0")
     chk.rule("Q3", "rotenc_count returns the latched count")
-    chk.rule("Q4", "rotenc_decode keeps no state outside its rotenc_t argument: no access to a mutable object with static storage")
+    chk.rule("Q4", "rotenc_count14: low byte is the latched count; equals the live position at rest (decided only there)")
+    chk.rule("Q6", "rotenc_decode keeps no state outside its rotenc_t argument: no access to a mutable object with static storage")
     chk.assumptions += ["states passed to rotenc_decode are 2-bit values (the property's scope)",
                         "rotenc_count14's agreement with the latched position is NOT decided (needs reachable-state reasoning; "
                         "by inspection it is false next to multiples of 256 clicks - DESIGN.md O1)"]
